@@ -221,6 +221,19 @@ func genSingles(r *rand.Rand, sp *optSpec) []List {
 // user option for the same setting as a platform option
 var userFor = map[string]string{"auth-bypass": "WithAuthBypass", "auth-strict-key": "WithAuthNoStrictKey"}
 
+// genPlatformBoolTwice: a bool-typed entry twice in one options block: the later value wins.
+func genPlatformBoolTwice(r *rand.Rand, ps platSpec) []List {
+	var out []List
+	for _, k := range []string{kPlatGen, kPlatNet} {
+		bo := func(kind string, b bool) PlatOpt { return PlatOpt{Name: ps.Name, Kind: kind, B: b} }
+		for _, pair := range [][2]PlatOpt{{bo("bool", true), bo("bool", false)}, {bo("bool", false), bo("bool", true)},
+			{bo("none", false), bo("bool", false)}, {bo("none", false), bo("bool", true)}, {bo("bool", true), bo("none", false)}, {bo("bool", false), bo("none", false)}} {
+			out = append(out, List{K: k, Home: "A", Hint: ps.Name, Plat: &PlatDef{Privs: 1, DDP: "exec", Options: []PlatOpt{pair[0], genPlatOpt(r, "port"), pair[1]}}})
+		}
+	}
+	return out
+}
+
 func genPlatformOption(r *rand.Rand, ps platSpec) []List {
 	var out []List
 	user := userFor[ps.Name]
@@ -237,13 +250,6 @@ func genPlatformOption(r *rand.Rand, ps platSpec) []List {
 			}
 			if ps.Kind == "list" {
 				vals = append(vals, PlatOpt{Name: ps.Name, Kind: "list", L: []string{}}, PlatOpt{Name: ps.Name, Kind: "list", L: []string{"-o", "a b", "é"}})
-			}
-		}
-		if ps.Kind == "bool" { // the same bool entry twice in one block: the later value wins
-			bo := func(kind string, b bool) PlatOpt { return PlatOpt{Name: ps.Name, Kind: kind, B: b} }
-			for _, pair := range [][2]PlatOpt{{bo("bool", true), bo("bool", false)}, {bo("bool", false), bo("bool", true)},
-				{bo("none", false), bo("bool", false)}, {bo("none", false), bo("bool", true)}, {bo("bool", true), bo("none", false)}, {bo("bool", false), bo("none", false)}} {
-				out = append(out, List{K: k, Home: "A", Hint: ps.Name, Plat: &PlatDef{Privs: 1, DDP: "exec", Options: []PlatOpt{pair[0], genPlatOpt(r, "port"), pair[1]}}})
 			}
 		}
 		for _, v := range vals {
@@ -309,6 +315,9 @@ func gen(tier string, seed int64) []mon.Case {
 	}
 	for _, ps := range platSpecs {
 		cs = append(cs, mon.MkCase("c19/platform-option/"+ps.Name, Desc{Kind: "lists", What: "platform-option:" + ps.Name, Lists: genPlatformOption(r, ps)}))
+		if ps.Kind == "bool" {
+			cs = append(cs, mon.MkCase("c19/platform-option-twice/"+ps.Name, Desc{Kind: "lists", What: "platform-option-twice:" + ps.Name, Lists: genPlatformBoolTwice(r, ps)}))
+		}
 	}
 	batches, per := 100, 40
 	if tier == "thorough" {
